@@ -30,14 +30,14 @@ RULE = (
 EXHAUSTIVE_SUBSPACES = ["all 4 (fold, optimize) combinations (even cases)", "batch sizes 1, 2, F-1, F, F+1 for each input fold count F"]
 ASSUMPTIONS = ["reference interpreter + quadrature of vf/brute.py", "embedding / polynomial layers have no backend integrate(): documented TypeError counted as refusal"]
 FLOOR = {"logits&F>1": 1, "B=F": 1, "B=1&F>1": 1, "per-row-masks": 1, "form:tensor": 1, "form:tensor-1d": 1, "form:scope": 1, "form:list-1": 1, "form:list-B": 1,
-         "reject:out-of-scope": 1, "reject:mask-width": 1, "marginals_compared": 300, "vs-symbolic-integrate": 1, "in:binomial-probs": 1, "in:gaussian-lp": 1, "requery-after-update": 1}
+         "reject:out-of-scope": 1, "reject:mask-width": 1, "marginals_compared": 300, "vs-symbolic-integrate": 1, "in:binomial-probs": 1, "in:gaussian-lp": 1, "requery-after-update": 1, "zero-probability-category": 1, "zero-density-in-marginalised-column": 1}
 
 
 def plan(tier, seed):
     n = 14 if tier == "quick" else 170
     cases = []
     for k in range(n):
-        for kind in ("cat-logits", "cat", "gauss", "binomial", "mixed"):
+        for kind in ("cat-logits", "cat", "gauss", "binomial", "mixed", "cat-zero"):
             cases.append({"kind": kind, "k": k, "seed": seed})
     cases += [{"kind": "embedding", "k": k, "seed": seed} for k in range(2)]
     return cases
@@ -49,9 +49,11 @@ def run_case(case) -> Result:
     nrng = np_rng(rng)
     kind = case["kind"]
     kinds = {"cat-logits": ("cat",), "cat": ("cat",), "gauss": ("gaussian", "gaussian_lp"), "binomial": ("binomial",), "mixed": ("cat", "binomial", "gaussian", "gaussian_lp"),
-             "embedding": ("embedding", "cat")}[kind]
+             "embedding": ("embedding", "cat"), "cat-zero": ("cat",)}[kind]
     cat_modes = ("logits", "logits", "logits_lsm") if kind == "cat-logits" else ("probs_softmax", "probs_raw", "logits", "logits_lsm")
     mono = rng.random() < 0.6 and kind != "embedding"
+    if kind == "cat-zero":  # probability tables with an impossible category 0, log-space semiring
+        cat_modes, mono = ("probs_raw",), True
     cfg = gen.GenCfg(nvars=rng.randint(2, 5), kinds=kinds, cat_modes=cat_modes, same_kind_all_vars=kind != "mixed", structured=rng.random() < 0.6,
                      max_reps=rng.choice([1, 2]), out_units=rng.choice([1, 2]), outputs=rng.choice([1, 1, 2]), share_prob=0.1, max_units=2,
                      leaf_sum_prob=0.1, id_mode=rng.choice(["contiguous", "contiguous", "sparse"]), monotonic=mono,
@@ -61,7 +63,7 @@ def run_case(case) -> Result:
     ids = sorted(domains)
     ncols = max(ids) + 1
     res.features |= structs.circuit_features(c)
-    sr = "lse-sum" if mono and rng.random() < 0.6 else "sum-product"
+    sr = "lse-sum" if mono and (rng.random() < 0.6 or kind == "cat-zero") else "sum-product"
     res.features.add("sr:" + sr)
     res.sig = c01.struct_sig(c) + ":" + sr
     flags = C.FLAGS if case["k"] % 2 == 0 else [C.FLAGS[1], C.FLAGS[3]]
@@ -75,6 +77,13 @@ def run_case(case) -> Result:
             continue
         if vcls != "init":
             tie.revalue(comp, c, np.random.default_rng(vseed), vcls)
+        if kind == "cat-zero":
+            for n_, dom_ in tie.leaf_domains(c).items():
+                if dom_ == "simplex":
+                    v_ = tie.leaf_reader(comp)(n_).copy()
+                    v_[..., 0] = 0.0
+                    tie.write_leaf(comp, n_, v_ / v_.sum(axis=-1, keepdims=True))
+            res.features.add("zero-probability-category")
         if sr == "lse-sum" and not C.monotone_ok(c, comp):
             continue
         oq = call(IntegrateQuery, cc_)
@@ -115,10 +124,18 @@ def run_case(case) -> Result:
                 arg = [Scope(m) for m in masks]
             res.features.add("form:" + form)
             # garbage in the masked columns: they must not influence the result
+            # (continuous: a large value, or one so large that the density underflows to exactly 0 / -inf;
+            # discrete: any category, in the cat-zero family the impossible one, whose log-probability is -inf)
             Xg = X.copy()
+            huge_garbage = X.dtype.kind == "f" and rng.random() < 0.5
             for b, m in enumerate(masks):
                 for v in m:
-                    Xg[b, v] = (X[b, v] if domains[v][0] == "disc" else 1.0e3) if domains[v][0] == "disc" else 1.0e3
+                    if domains[v][0] == "disc":
+                        Xg[b, v] = 0 if kind == "cat-zero" else X[b, v]
+                    else:
+                        Xg[b, v] = 1.0e200 if huge_garbage else 1.0e3
+            if huge_garbage and any(domains[v][0] == "cont" for m in masks for v in m):
+                res.features.add("zero-density-in-marginalised-column")
             o = call(lambda: q(C.to_tensor(Xg), integrate_vars=arg))
             if not o.ok:
                 if isinstance(o.exc, TypeError) and "not supported" in str(o.exc):
